@@ -2118,6 +2118,72 @@ fn check_mirror(schema: &st::S, sch: &Sch) -> Result<(), String> {
 
 // ---------------------------------------------------------------------------------------------------------------
 
+/// The search plan for the current list of open findings: every open finding's construct is excluded from the main
+/// search by construction and its quirk is recorded for the probe streams.
+fn make_plan(open_finding: &dyn Fn(&str) -> bool) -> Plan {
+    let findings: [(&str, Quirks); 11] = [
+        ("C09-F10", Quirks::default()),
+        ("C09-F11", Quirks { typename_fields_unvisited: true, ..Quirks::default() }),
+        ("C09-F12", Quirks { int_accepts_64_bits: true, ..Quirks::default() }),
+        ("C09-F1", Quirks { no_variable_usage_check: true, ..Quirks::default() }),
+        ("C09-F2", Quirks { merge_same_condition_only: true, ..Quirks::default() }),
+        ("C09-F3", Quirks { no_subscription_root_count: true, ..Quirks::default() }),
+        ("C09-F4", Quirks { last_duplicate_input_field_wins: true, ..Quirks::default() }),
+        ("C09-F5", Quirks { non_object_for_input_object_accepted: true, ..Quirks::default() }),
+        ("C09-F6", Quirks { string_literal_for_enum_accepted: true, ..Quirks::default() }),
+        ("C09-F7", Quirks { variable_directives_unchecked: true, ..Quirks::default() }),
+        ("C09-F9", Quirks { unsupplied_variable_disables_argument_check: true, ..Quirks::default() }),
+    ];
+    let open: Vec<(String, Quirks)> = findings.iter().filter(|(id, _)| open_finding(id)).map(|(id, q)| (id.to_string(), *q)).collect();
+    let is_open = |id: &str| open.iter().any(|(i, _)| i == id);
+    let excl = Excl {
+        var_position: is_open("C09-F1"),
+        cross_condition_conflicts: is_open("C09-F2"),
+        subscription_roots: is_open("C09-F3"),
+        duplicate_input_fields: is_open("C09-F4"),
+        non_object_for_input: is_open("C09-F5"),
+        string_for_enum: is_open("C09-F6"),
+        variable_directives: is_open("C09-F7"),
+        unknown_list_default: is_open("C09-F10"),
+        typename: is_open("C09-F11"),
+        int_range: is_open("C09-F12"),
+        force_input_kind: None,
+    };
+    Plan { excl, open: open.clone(), force: None, ops: vec![OpKind::Query, OpKind::Query, OpKind::Mutation, OpKind::Subscription], omitted_var_with_arg_default: !open_finding("C06-F1") }
+}
+
+/// Entry point of the libFuzzer target `validate_diff` (thorough tier): the fuzzer's bytes are the choice stream of
+/// `run_case`; byte 0 selects the flavour (random dynamic schema / the static schema of this module). Open findings
+/// are excluded by construction exactly as in the proptest streams. Returns the failure text, if any.
+#[allow(dead_code)]
+pub fn fuzz_one(data: &[u8]) -> Option<String> {
+    use std::sync::OnceLock;
+    struct Fz {
+        schema: st::S,
+        tap: Tap,
+        sch: Sch,
+        plan: Plan,
+    }
+    static FZ: OnceLock<Fz> = OnceLock::new();
+    if data.len() < 8 {
+        return None;
+    }
+    let fz = FZ.get_or_init(|| {
+        let tap = Tap::default();
+        let schema: st::S = async_graphql::Schema::build(st::Query, st::Mutation, st::Subscription).extension(tap.clone()).finish();
+        let sch = from_sdl_text(&schema.sdl()).expect("static schema SDL readable");
+        let c = Ctx::new("C09", vcore::Tier::Thorough, "fuzz");
+        let plan = make_plan(&|id| c.open(id));
+        Fz { schema, tap, sch, plan }
+    });
+    let mut src = vcore::ByteSrc::new(&data[1..]);
+    let case = if data[0] % 2 == 0 { run_case(&mut src, &Target::Dynamic, &fz.plan) } else { run_case(&mut src, &Target::Static { schema: &fz.schema, tap: &fz.tap, sch: &fz.sch }, &fz.plan) };
+    match &case.verdict {
+        vcore::Verdict::Fail(why) => Some(format!("{}\n{}", why, case.text)),
+        _ => None,
+    }
+}
+
 pub fn run(ctx: &mut Ctx) {
     ctx.rule = "requests = (schema, document, variables, operation name): documents from the typed generator (valid by construction) over random dynamic schemas and the \
                 derive-built static schema of this module, unchanged, or changed by one (1 in 8: two) of 27 rule-targeted mutation operators, or by one of 6 operators expected to keep \
@@ -2155,43 +2221,18 @@ pub fn run(ctx: &mut Ctx) {
         return;
     }
 
-    let findings: [(&str, Quirks); 11] = [
-        ("C09-F10", Quirks::default()),
-        ("C09-F11", Quirks { typename_fields_unvisited: true, ..Quirks::default() }),
-        ("C09-F12", Quirks { int_accepts_64_bits: true, ..Quirks::default() }),
-        ("C09-F1", Quirks { no_variable_usage_check: true, ..Quirks::default() }),
-        ("C09-F2", Quirks { merge_same_condition_only: true, ..Quirks::default() }),
-        ("C09-F3", Quirks { no_subscription_root_count: true, ..Quirks::default() }),
-        ("C09-F4", Quirks { last_duplicate_input_field_wins: true, ..Quirks::default() }),
-        ("C09-F5", Quirks { non_object_for_input_object_accepted: true, ..Quirks::default() }),
-        ("C09-F6", Quirks { string_literal_for_enum_accepted: true, ..Quirks::default() }),
-        ("C09-F7", Quirks { variable_directives_unchecked: true, ..Quirks::default() }),
-        ("C09-F9", Quirks { unsupplied_variable_disables_argument_check: true, ..Quirks::default() }),
-    ];
     // verification of a proposed repair: VERIF_C09_ASSUME_FIXED=C09-F1,C09-F3 treats these findings as not open
     let assume_fixed: Vec<String> = std::env::var("VERIF_C09_ASSUME_FIXED").map(|v| v.split(',').map(|x| x.trim().to_string()).collect()).unwrap_or_default();
     if !assume_fixed.is_empty() {
         ctx.note("assume_fixed", serde_json::json!(assume_fixed));
     }
-    let open: Vec<(String, Quirks)> = findings.iter().filter(|(id, _)| ctx.open(id) && !assume_fixed.iter().any(|a| a == id)).map(|(id, q)| (id.to_string(), *q)).collect();
+    let plan = make_plan(&|id| ctx.open(id) && !assume_fixed.iter().any(|a| a == id));
+    let open = plan.open.clone();
+    let excl = plan.excl;
     let is_open = |id: &str| open.iter().any(|(i, _)| i == id);
-    let excl = Excl {
-        var_position: is_open("C09-F1"),
-        cross_condition_conflicts: is_open("C09-F2"),
-        subscription_roots: is_open("C09-F3"),
-        duplicate_input_fields: is_open("C09-F4"),
-        non_object_for_input: is_open("C09-F5"),
-        string_for_enum: is_open("C09-F6"),
-        variable_directives: is_open("C09-F7"),
-        unknown_list_default: is_open("C09-F10"),
-        typename: is_open("C09-F11"),
-        int_range: is_open("C09-F12"),
-        force_input_kind: None,
-    };
     for (id, _) in &open {
         ctx.excluded(id);
     }
-    let plan = Plan { excl, open: open.clone(), force: None, ops: vec![OpKind::Query, OpKind::Query, OpKind::Mutation, OpKind::Subscription], omitted_var_with_arg_default: !ctx.open("C06-F1") };
 
     let st_target = Target::Static { schema: &schema, tap: &tap, sch: &static_sch };
 
